@@ -2,8 +2,11 @@
 //! (plus the text-reader clauses of C09 `gen_skip` and C20 `gen_fault`).
 //!
 //! ops (cap = 0 means `TokenReader::from_slice`, the schedule is then ignored; a cap with the
-//! suffix `r` uses a buffer recycled from a previous reader via `into_parts`/`builder().buffer`):
+//! suffix `r` uses a buffer recycled from a previous reader via `into_parts`/`builder().buffer`; `r<hh>` = that
+//! buffer is left filled with the byte <hh>, e.g. `16r7b` = sixteen stale `{`):
 //!   tlex    <hex>                         -> `<toks> <outcome> <pos>`
+//!   tlexg   <guardhex> <hex>              -> same; from_slice over a SUB-slice of a larger allocation whose following
+//!                                            bytes are <guardhex> (the model answers exactly like `tlex <hex>`)
 //!   tstream <cap> <sched> <hex>           -> `<toks> <outcome> <pos> <delivered>`      stops at the first error
 //!   tretry  <cap> <sched> <hex>           -> same, but keeps calling `next` after an I/O error (`!io` in the token list)
 //!   tskip   <cap> <sched> <hex> <k>       -> `<skip-outcome> <next> <pos> <delivered>` skip_container after the k-th Open (k>=1)
@@ -133,9 +136,14 @@ fn bytes_at<R: Read>(rd: &mut TokenReader<R>, k: usize, n: usize) -> String {
     format!("{} {}", first, nx)
 }
 
-/// a buffer of `cap` bytes that a previous reader has filled with bytes significant to the lexer
-fn recycled_buffer(cap: usize) -> Box<[u8]> {
-    let junk: Vec<u8> = b"\"\\{}#= a\n\"x\\\"".iter().copied().cycle().take(cap * 3 + 7).collect();
+/// a buffer of `cap` bytes recycled from a previous reader (`into_parts`).  `fill = None`: whatever a reader over
+/// lexically significant junk left in it; `Some(b)`: the previous reader read a stream of `b` bytes and the buffer is
+/// left entirely filled with `b` (stale `{`, `}`, `"`, `\` right behind the window).
+fn recycled_buffer(cap: usize, fill: Option<u8>) -> Box<[u8]> {
+    let junk: Vec<u8> = match fill {
+        None => b"\"\\{}#= a\n\"x\\\"".iter().copied().cycle().take(cap * 3 + 7).collect(),
+        Some(b) => vec![b; cap * 2 + 3],
+    };
     let mut rd = TokenReader::builder().buffer_len(cap).build(&junk[..]);
     for _ in 0..(cap + 4) {
         match rd.next() {
@@ -143,7 +151,8 @@ fn recycled_buffer(cap: usize) -> Box<[u8]> {
             _ => break,
         }
     }
-    let (buf, _) = rd.into_parts();
+    let (mut buf, _) = rd.into_parts();
+    if let Some(b) = fill { for x in buf.iter_mut() { *x = b; } }
     buf
 }
 
@@ -157,9 +166,19 @@ impl<'a> Read for Logged<'a> {
     }
 }
 
-pub struct Cap { pub n: usize, pub recycled: bool }
+#[derive(Clone)]
+pub struct Cap { pub n: usize, pub recycled: bool, pub fill: Option<u8> }
+impl Cap { pub fn fresh(n: usize) -> Cap { Cap { n, recycled: false, fill: None } } }
 fn parse_cap(s: &str) -> Option<Cap> {
-    if let Some(p) = s.strip_suffix('r') { Some(Cap { n: p.parse().ok()?, recycled: true }) } else { Some(Cap { n: s.parse().ok()?, recycled: false }) }
+    match s.find('r') {
+        None => Some(Cap::fresh(s.parse().ok()?)),
+        Some(i) => {
+            let n = s[..i].parse().ok()?;
+            let rest = &s[i + 1..];
+            let fill = if rest.is_empty() { None } else { Some(u8::from_str_radix(rest, 16).ok()?) };
+            Some(Cap { n, recycled: true, fill })
+        }
+    }
 }
 
 /// run `f` on a reader over `data`; cap 0 = from_slice
@@ -172,7 +191,7 @@ fn with_reader<T>(cap: &Cap, steps: &[Step], data: &[u8],
         (t, rd.position(), data.len(), 0, 0, vec![])
     } else {
         let src = Logged { inner: SchedReader::new(data, steps.to_vec()), fault_pos: vec![] };
-        let b = if cap.recycled { TokenReader::builder().buffer(recycled_buffer(cap.n)) } else { TokenReader::builder().buffer_len(cap.n) };
+        let b = if cap.recycled { TokenReader::builder().buffer(recycled_buffer(cap.n, cap.fill)) } else { TokenReader::builder().buffer_len(cap.n) };
         let mut rd = b.build(src);
         let t = f_stream(&mut rd);
         let pos = rd.position();
@@ -372,7 +391,7 @@ pub fn exec(w: &[&str], obs: &mut Obs) -> Option<String> {
             Some(format!("{}", r as u8)) }
         ["tlex", h] => {
             let d = unhex(h)?;
-            let r = run_lex(&Cap { n: 0, recycled: false }, &[], &d, false, false);
+            let r = run_lex(&Cap::fresh(0), &[], &d, false, false);
             let reference = ref_lex(&d);
             if r.toks != reference.toks || r.out != reference.out {
                 obs.violation("slice-vs-reference", &case(), &format!("impl {} {} reference {} {}", join(&r.toks), r.out, join(&reference.toks), reference.out));
@@ -381,6 +400,20 @@ pub fn exec(w: &[&str], obs: &mut Obs) -> Option<String> {
             obs.count(&format!("tlex:{}", r.out));
             for t in &r.toks { obs.count(&format!("tok:{}", t.split(':').next().unwrap_or("?"))); }
             Some(format!("{} {} {}", join(&r.toks), r.out, r.pos))
+        }
+        ["tlexg", gh, h] => {
+            let guard = unhex(gh)?; let d = unhex(h)?;
+            // one allocation: the input followed by guard bytes; the reader only gets the sub-slice
+            let mut all = d.clone(); all.extend_from_slice(&guard);
+            let mut rd = TokenReader::from_slice(&all[..d.len()]);
+            let (toks, out) = lex_all(&mut rd, d.len() * 2 + 32, false, false);
+            let pos = rd.position();
+            let plain = run_lex(&Cap::fresh(0), &[], &d, false, false);
+            if toks != plain.toks || out != plain.out || pos != plain.pos {
+                obs.violation("slice-reads-beyond-window", &case(), &format!("guarded {} {} {} plain {} {} {}", join(&toks), out, pos, join(&plain.toks), plain.out, plain.pos));
+            }
+            obs.count(&format!("tlexg:{}", out));
+            Some(format!("{} {} {}", join(&toks), out, pos))
         }
         [op @ ("tstream" | "tretry" | "tread"), c, s, h] => {
             let cap = parse_cap(c)?; let steps = sched::parse(s)?; let d = unhex(h)?;
@@ -416,12 +449,12 @@ fn stream_oracle(op: &str, cap: &Cap, steps: &[Step], d: &[u8], r: &Run, case: &
     if r.pos > r.delivered { obs.violation("position-beyond-delivered", case, &format!("pos {} delivered {}", r.pos, r.delivered)); }
     if cap.n == 0 { return; }
     let via_read = op == "tread";
-    let slice = run_lex(&Cap { n: 0, recycled: false }, &[], d, false, via_read);
+    let slice = run_lex(&Cap::fresh(0), &[], d, false, via_read);
     let reference = ref_lex(d);
     let fits = cap.n >= reference.need;
     let faulty = has_faults(steps);
     if cap.recycled {
-        let fresh = run_lex(&Cap { n: cap.n, recycled: false }, steps, d, op == "tretry", via_read);
+        let fresh = run_lex(&Cap::fresh(cap.n), steps, d, op == "tretry", via_read);
         if fresh != *r { obs.violation("recycled-vs-fresh", case, &format!("fresh {} {} {}", join(&fresh.toks), fresh.out, fresh.pos)); }
     }
     if !faulty {
@@ -446,7 +479,7 @@ fn stream_oracle(op: &str, cap: &Cap, steps: &[Step], d: &[u8], r: &Run, case: &
         if r.out == "err:full" && fits { obs.violation("full-although-fits", case, &format!("need {}", reference.need)); }
     } else {
         // C20: the fault-free run with the same capacity is the reference
-        let clean = run_lex(&Cap { n: cap.n, recycled: false }, &strip_faults(steps), d, false, via_read);
+        let clean = run_lex(&Cap::fresh(cap.n), &strip_faults(steps), d, false, via_read);
         let got: Vec<String> = r.toks.iter().filter(|t| *t != "!io").cloned().collect();
         let nio = r.toks.len() - got.len();
         if r.faults == 0 {
@@ -528,7 +561,7 @@ fn skip_oracle(kind: SkipKind, cap: &Cap, steps: &[Step], d: &[u8], k: usize, re
     }
     // 2. stream == slice for every input when things fit
     if cap.n != 0 {
-        let (sres, spos, _, _) = run_skip(&Cap { n: 0, recycled: false }, &[], d, kind, k);
+        let (sres, spos, _, _) = run_skip(&Cap::fresh(0), &[], d, kind, k);
         if !faulty {
             // (after a byte-level skip over a text whose unquoted tokens contain braces/quotes/'#' the following
             //  token need not be one of the reference tokens, so `need` only bounds it when everything fits)
@@ -539,7 +572,7 @@ fn skip_oracle(kind: SkipKind, cap: &Cap, steps: &[Step], d: &[u8], k: usize, re
                 obs.violation("skip-overflow-not-error", case, &format!("stream `{}` slice `{}`", res, sres));
             }
         } else {
-            let (cres, _, _, _) = run_skip(&Cap { n: cap.n, recycled: false }, &strip_faults(steps), d, kind, k);
+            let (cres, _, _, _) = run_skip(&Cap::fresh(cap.n), &strip_faults(steps), d, kind, k);
             if faults == 0 { if cres != res { obs.violation("fault-unreached-differs", case, &format!("clean `{}`", cres)); } }
             else if !res.contains("err:io") { obs.violation("fault-swallowed", case, &format!("faulty `{}` clean `{}`", res, cres)); }
             else {
@@ -582,14 +615,14 @@ fn bytes_oracle(cap: &Cap, steps: &[Step], d: &[u8], k: usize, n: usize, res: &s
         }
     }
     if cap.n == 0 { return; }
-    let (sres, _, _, _) = run_bytes(&Cap { n: 0, recycled: false }, &[], d, k, n);
+    let (sres, _, _, _) = run_bytes(&Cap::fresh(0), &[], d, k, n);
     if !faulty {
         // too small a buffer: an error, or the same bytes as the slice reader (modulo the one-space offset checked above)
         if !fits && !res.contains("err:") && !(first.starts_with("b:") && sres.starts_with("b:")) && res != sres {
             obs.violation("bytes-overflow-not-error", case, &format!("stream `{}` slice `{}`", res, sres));
         }
     } else {
-        let (cres, _, _, _) = run_bytes(&Cap { n: cap.n, recycled: false }, &strip_faults(steps), d, k, n);
+        let (cres, _, _, _) = run_bytes(&Cap::fresh(cap.n), &strip_faults(steps), d, k, n);
         if faults == 0 { if cres != res { obs.violation("fault-unreached-differs", case, &format!("clean `{}`", cres)); } }
         else if !res.contains("err:io") { obs.violation("fault-swallowed", case, &format!("faulty `{}` clean `{}`", res, cres)); }
         else if res.starts_with("b:") && res.split(' ').next() != cres.split(' ').next() { obs.violation("fault-differs", case, &format!("faulty `{}` clean `{}`", res, cres)); }
@@ -659,7 +692,9 @@ fn small_caps(rng: &mut Rng, need: usize) -> Vec<usize> {
     v
 }
 
-fn show_cap(rng: &mut Rng, c: usize) -> String { if rng.chance(1, 6) { format!("{}r", c) } else { c.to_string() } }
+fn show_cap(rng: &mut Rng, c: usize) -> String {
+    match rng.below(12) { 0 => format!("{}r", c), 1 => format!("{}r{:02x}", c, *rng.pick(&[b'{', b'}', b'"', b'\\', b'#'])), _ => c.to_string() }
+}
 
 fn long_schedules(rng: &mut Rng, len: usize, all_one_cuts: bool) -> Vec<Vec<Step>> {
     let mut v: Vec<Vec<Step>> = vec![vec![], vec![Step::Repeat(1)]];
@@ -704,8 +739,86 @@ pub fn gen_c07(g: &mut Gen) {
         g.emit(format!("tstream {} {} {}", cap, s, hex(text)));
         g.emit(format!("tlex {}", hex(text)));
     }
+    // 0. bytes behind the window: guard bytes after a sub-slice, stale fill bytes in a recycled buffer, blank runs of
+    //    every length 0..24 followed by nothing or one token, windows ending exactly 8 / 9 / 16 / 17 bytes after a
+    //    token start (cap == 8, 9, 16, 17; read sizes 1, 7, 8, 9)
+    const GUARDS: [&[u8]; 6] = [b"{{{{{{{{{{{{{{{{", b"}}}}}}}}}}}}}}}}", b"\"\"\"\"\"\"\"\"\"\"\"\"\"\"\"\"", b"\\\\\\\\\\\\\\\\\\\\\\\\\\\\\\\\", b"================", b"aaaaaaaaaaaaaaaa"];
+    const FILLS: [u8; 5] = [b'{', b'}', b'"', b'\\', b'='];
+    let blank_kinds: [&[u8]; 5] = [b"\t", b"\n", b" ", b"\t\n", b"\t\n \r;"];
+    let followers: [&[u8]; 9] = [b"", b"a", b"{", b"}", b"\"q\"", b"=", b"abc=1", b"#c", b"\xef\xbb\xbf"];
+    for len in 0..=24usize {
+        for kind in blank_kinds.iter() {
+            for fol in followers.iter() {
+                let mut d: Vec<u8> = (0..len).map(|i| if kind.len() <= 2 { kind[i % kind.len()] } else { *rng.pick(kind) }).collect();
+                d.extend_from_slice(fol);
+                g.emit(format!("tlex {}", hex(&d)));
+                for gd in GUARDS.iter() { g.emit(format!("tlexg {} {}", hex(gd), hex(&d))); }
+                let need = ref_lex(&d).need;
+                for cap in [8usize, 9, 16, 17, 24] {
+                    if cap < need { continue; }
+                    let step = *rng.pick(&[1usize, 7, 8, 9]);
+                    let fill = *rng.pick(&FILLS);
+                    g.emit(format!("tstream {}r{:02x} R{} {}", cap, fill, step, hex(&d)));
+                }
+            }
+        }
+        g.count("behind-window:blank-runs");
+    }
+    // a token, then a blank run of every length 0..24, and the window (the slice / the first read) ends exactly there:
+    // the NEXT call starts with exactly that run in the window (the fast-path gate is only consulted at the start of a
+    // call; after a refill the reader goes to the fallback scan), with guard / stale bytes right behind it
+    let prefixes: [&[u8]; 5] = [b"{", b"}", b"a=", b"\"q\"", b"abc "];
+    for len in 0..=24usize {
+        for kind in blank_kinds.iter().take(4) {
+            for pre in prefixes.iter() {
+                let mut d: Vec<u8> = pre.to_vec();
+                d.extend((0..len).map(|i| kind[i % kind.len()]));
+                let cut = d.len();
+                for gd in GUARDS.iter().take(4) { g.emit(format!("tlexg {} {}", hex(gd), hex(&d))); }
+                let fol = *rng.pick(&followers);
+                let mut full = d.clone(); full.extend_from_slice(fol);
+                g.emit(format!("tlex {}", hex(&full)));
+                let need = ref_lex(&full).need;
+                for fill in [b'{', b'}', b'"', b'\\'] {
+                    let cap = (cut + *rng.pick(&[1usize, 2, 8, 9])).max(need);
+                    let step = *rng.pick(&[1usize, 7, 8, 9]);
+                    g.emit(format!("tstream {}r{:02x} {},R{} {}", cap, fill, cut, step, hex(&full)));
+                }
+            }
+        }
+        g.count("behind-window:token-then-blank-run");
+    }
+    // a token start at offset `pad`, then the window ends exactly `k` bytes after it
+    for pad in 0..=9usize {
+        for k in [7usize, 8, 9, 15, 16, 17] {
+            for body in 0..4 {
+                let mut d: Vec<u8> = (0..pad).map(|_| *rng.pick(b"\t\n\t\n ")).collect();
+                let start = d.len();
+                match body {
+                    0 => d.extend((0..k + 3).map(|_| *rng.pick(b"abz09-"))),
+                    1 => { d.push(b'"'); d.extend((0..k + 2).map(|_| *rng.pick(b"ab {}#"))); d.push(b'"'); }
+                    2 => { d.extend((0..k - 1).map(|_| *rng.pick(b"abz"))); d.extend_from_slice(b" {x}"); }
+                    _ => { d.push(b'"'); d.extend((0..k - 2).map(|_| *rng.pick(b"ab"))); d.extend_from_slice(b"\\\"c\" }"); }
+                }
+                g.emit(format!("tlex {}", hex(&d)));
+                let gd = *rng.pick(&GUARDS);
+                g.emit(format!("tlexg {} {}", hex(gd), hex(&d[..(start + k).min(d.len())])));
+                g.emit(format!("tlexg {} {}", hex(gd), hex(&d)));
+                let need = ref_lex(&d).need;
+                for cap in [8usize, 9, 16, 17, start + k, start + k + 1] {
+                    for step in [1usize, 7, 8, 9] {
+                        let fill = *rng.pick(&FILLS);
+                        // first read delivers exactly up to `start + k`, then `step`-byte reads
+                        if cap >= 1 { g.emit(format!("tstream {}r{:02x} {},R{} {}", cap.max(1), fill, (start + k).max(1), step, hex(&d))); }
+                        let _ = need;
+                    }
+                }
+            }
+        }
+        g.count("behind-window:exact-window-ends");
+    }
     // 1. every composition schedule for short inputs
-    let n_short = g.budget(260, 6000);
+    let n_short = g.budget(120, 6000);
     for i in 0..n_short {
         let maxlen = match i % 8 { 0 => 12, 1 | 2 => 10, 3 | 4 => 8, _ => 7 };
         let d = one_input(&mut rng, maxlen);
@@ -725,13 +838,14 @@ pub fn gen_c07(g: &mut Gen) {
         g.count("short:all-compositions");
     }
     // 2. longer inputs: 1-/2-cut, all-1-byte, periodic, random schedules; capacities from exact fit upward and too small
-    let n_long = g.budget(900, 20000);
+    let n_long = g.budget(500, 20000);
     for i in 0..n_long {
         let maxlen = match i % 6 { 0 => 24, 1 => 40, 2 => 64, 3 => 100, 4 => 200, _ => 48 };
         let d = one_input(&mut rng, maxlen);
         if d.is_empty() { continue; }
         let r = ref_lex(&d);
         g.emit(format!("tlex {}", hex(&d)));
+        g.emit(format!("tlexg {} {}", hex(*rng.pick(&[&b"{{{{{{{{{"[..], b"}}}}}}}}}", b"\"\"\"\"\"\"\"\"\"", b"\\\\\\\\\\\\\\\\\\", b"a=b{}\"#\\ "])), hex(&d)));
         let scheds = long_schedules(&mut rng, d.len(), d.len() <= 40);
         let caps = cap_choices(&mut rng, r.need, d.len());
         for s in &scheds {
@@ -782,8 +896,31 @@ pub fn gen_c07(g: &mut Gen) {
         }
         g.count("sweep:alignment");
     }
+    // 3b. escape alignment sweep: `\"` (and `\\`) at every offset 0..24 of a quoted body, so that the backslash is the last
+    //     byte of an 8-byte chunk of the SWAR quote finder and the escaped quote the first byte of the next one
+    for pad in [0usize, 1, 2, 5, 8] {
+        for l in 0..=24usize {
+            for esc in [&b"\\\""[..], b"\\\\", b"\\n"] {
+                for m in [0usize, 1, 7, 8, 9] {
+                    let mut d: Vec<u8> = (0..pad).map(|_| *rng.pick(b"\t\n ")).collect();
+                    d.push(b'"');
+                    d.extend((0..l).map(|_| *rng.pick(b"abc {}#=")));
+                    d.extend_from_slice(esc);
+                    d.extend((0..m).map(|_| *rng.pick(b"abc {}#=")));
+                    d.push(b'"');
+                    d.extend_from_slice(*rng.pick(&[&b" x=1 y=2 z=3"[..], b"\n\t\t\tfoo=bar baz", b"=\"next one\" 12"]));
+                    g.emit(format!("tlex {}", hex(&d)));
+                    g.emit(format!("tlexg {} {}", hex(b"\"\"\"\"\"\"\"\"\""), hex(&d)));
+                    g.emit(format!("tstream {} - {}", d.len() + 9, hex(&d)));
+                    let s = sched::random(&mut rng, d.len());
+                    g.emit(format!("tstream {} {} {}", ref_lex(&d).need + rng.below(12), sched::show(&s), hex(&d)));
+                }
+            }
+        }
+    }
+    g.count("sweep:escape-alignment");
     // 4. the SWAR hooks
-    let n_hook = g.budget(3000, 60000);
+    let n_hook = g.budget(2000, 60000);
     for _ in 0..n_hook {
         let bytes: Vec<u8> = (0..8).map(|_| match rng.below(10) { 0..=3 => b'\t', 4 | 5 => b'\n', 6 => *rng.pick(&[8u8, 0x0b, 0x0c, 0x0d, b' ', 0x89, 0x8a, 0]), 7 => *rng.pick(b"{}\"#\\"), _ => rng.below(256) as u8 }).collect();
         let x = u64::from_le_bytes([bytes[0], bytes[1], bytes[2], bytes[3], bytes[4], bytes[5], bytes[6], bytes[7]]);
@@ -891,7 +1028,7 @@ pub fn gen_fault(g: &mut Gen) {
         let base = match rng.below(4) { 0 => vec![Step::Repeat(1)], 1 => vec![], _ => sched::random(&mut rng, d.len()) };
         let cap = r.need + rng.below(6);
         // number of read calls of the fault-free run
-        let clean = run_lex(&Cap { n: cap, recycled: false }, &base, &d, false, false);
+        let clean = run_lex(&Cap::fresh(cap), &base, &d, false, false);
         let calls = clean.calls.min(40);
         // expand the schedule to explicit steps so that a fault can be put at call index j
         let explicit = explicit_steps(&base, &d, cap);
@@ -947,7 +1084,7 @@ pub fn tables() -> String {
     // a byte is blank for the streaming reader iff `[b, 'a']` lexes to exactly the scalar `a`
     s.push_str(&crate::tables::emit_bool_table("textReaderBlank", "bytes the text TokenReader skips between tokens (measured: `[b] ++ \"a\"` lexes to exactly `a`)", |b| {
         let d = [b, b'a'];
-        let r = run_lex(&Cap { n: 0, recycled: false }, &[], &d, false, false);
+        let r = run_lex(&Cap::fresh(0), &[], &d, false, false);
         r.toks == vec!["U:61".to_string()] && r.out == "end"
     }));
     s.push('\n');
